@@ -274,6 +274,49 @@ def phraseMustUnion (sents : List (List (List Bytes))) (ws : List Bytes) : Verdi
   | .only [] => .only []
   | .only _ => .all
 
+
+/-! ### the search graph of `BuildGraph` (semantic tables, no hashing, no lazy evaluation)
+
+`Substrings::AddPhrase` enters every contiguous part of every phrase as a key; `FindX(key)`
+fails only when the key is no part of any phrase of any sentence, and then the loops of
+`BuildGraph` `break`.  `graphAccept sents s g` = "there is a path of arcs that all contain
+sentence `s` into the last vertex" — what `Vertex::LowerBound` computes lazily for all `s` at
+once (that lazy evaluation is tied by correspondence only). -/
+
+/-- the key is in the hash table -/
+def present (sents : List (List (List Bytes))) (k : List Bytes) : Bool :=
+  sents.any fun ph => ph.any (isSubstr k)
+
+/-- the loop reached this key without `break`: every non-empty prefix is in the table -/
+def prefixesPresent (sents : List (List (List Bytes))) (k : List Bytes) : Bool :=
+  (List.range k.length).all fun i => present sents (k.take (i+1))
+
+/-- arcs from the vertex before `r` to the last vertex: `SetPhrase` arcs over whole phrases,
+the last one over a left-aligned part (`FindLeft`) -/
+def graphRest (sents : List (List (List Bytes))) (phrases : List (List Bytes)) : Nat → List Bytes → Bool
+  | 0, _ => false
+  | fuel+1, r =>
+    (r ≠ [] && prefixesPresent sents r.dropLast && isPrefixOfAny phrases r) ||
+    (cuts r).any fun c => prefixesPresent sents c.1 && phrases.contains c.1 && graphRest sents phrases fuel c.2
+
+def graphAccept (sents : List (List (List Bytes))) (s : Nat) (g : List Bytes) : Bool :=
+  let phrases := sents.getD s []
+  (prefixesPresent sents g.dropLast && phrases.any (isSubstr g)) ||
+  (cuts g).any fun c => prefixesPresent sents c.1 && isSuffixOfAny phrases c.1 &&
+    graphRest sents phrases (c.2.length + 1) c.2
+
+/-- what `phrase::Multiple` / `phrase::Union` do with an n-gram, absent hash collisions -/
+def phraseVerdict (sents : List (List (List Bytes))) (ws : List Bytes) : Verdict :=
+  let g := phraseWords ws
+  if g = [] then .all
+  else .only ((List.range sents.length).filter fun s => graphAccept sents s g)
+
+def phraseVerdictUnion (sents : List (List (List Bytes))) (ws : List Bytes) : Verdict :=
+  match phraseVerdict sents ws with
+  | .all => .all
+  | .only [] => .only []
+  | .only _ => .all
+
 /-! ## modes -/
 
 inductive Mode where
